@@ -300,6 +300,17 @@ impl Prop for C18 {
     fn id(&self) -> &'static str {
         "C18"
     }
+    fn fuzz_target(&self) -> Option<&'static str> {
+        Some("c18_bytes")
+    }
+    fn run_bytes(&self, data: &[u8], rec: &mut Recorder) -> Result<(), Failure> {
+        silence_stderr_once();
+        let Ok(text) = std::str::from_utf8(data) else { return Ok(()) };
+        if huge_width(text) {
+            return Ok(());
+        }
+        judge_text(text, rec).map(|_| ())
+    }
     fn rule(&self) -> String {
         "valid btor2 texts (grammar-generated files and the shipped files under inputs/ below 6 kB) with 1-3 line/token level edits (delete/duplicate/swap/move lines, replace a token by a boundary number, a keyword or another token, negate/perturb numbers, drop/append tokens, inject unicode/control characters/comment starts, truncate a line) and grammar-generated ill-sorted variants; parse_str runs under catch_unwind with a panic hook. Allowed: rejection; a system passing the deep check (every reachable node type-checks, init/next have the state's type, every symbol used is a declared input/state, outputs/bads/constraints are bit-vectors); a panic whose message names a documented not-yet-supported operator. Non-trivial: text that tokenises into >= 3 well-formed lines and differs from every corpus file; distinct by hash of the text.".into()
     }
